@@ -985,3 +985,140 @@ def c09_9(I, shape):
     else:
         I.check(AND(seq_eq(forged, tag), seq_eq(res, pt)),
                 "chachapoly-open-accepts-only-right-tag")
+
+
+# ---------------------------------------------------------------------------
+# C09.5  3DES-EDE CBC construction over an abstract DES
+# ---------------------------------------------------------------------------
+import tlslite.utils.python_tripledes as tdes_mod
+
+_TOKENS = {}
+
+
+def _token(symblock):
+    """bytes.join needs real bytes: a symbolic 8-byte block travels through
+    Python_TripleDES as a unique concrete 8-byte token that the patched
+    bytearray() and ModelDes translate back"""
+    if is_concrete_mode():
+        return bytes(symblock)
+    k = len(_TOKENS)
+    t = b"\xf5TK" + k.to_bytes(4, 'big') + b"\x5f"
+    _TOKENS[t] = list(symblock)
+    return t
+
+
+def _untoken(data):
+    if is_concrete_mode() or isinstance(data, SymBytes):
+        return list(data)
+    data = bytes(data)
+    out = []
+    for i in range(0, len(data), 8):
+        chunk = data[i:i + 8]
+        out += _TOKENS.get(chunk, list(chunk))
+    return out
+
+
+def _tdes_bytearray(*a):
+    if len(a) == 1 and isinstance(a[0], (bytes, bytearray)):
+        return SymBytes(_untoken(a[0]))
+    return mk_bytearray(*a)
+
+
+def des_e(key, block):
+    return list(apply_uf("DESE", list(key) + list(block), 8))
+
+
+def des_d(key, block):
+    return list(apply_uf("DESD", list(key) + list(block), 8))
+
+
+class ModelDes(object):
+    """Des(key, iv).crypt contract: CBC-mode single DES under self.iv, with
+    the block function an uninterpreted bijection keyed by the key bytes"""
+    ENCRYPT = 0x00
+    DECRYPT = 0x01
+
+    def __init__(self, key, iv=None):
+        if len(key) != 8:
+            raise ValueError("Invalid DES key size.")
+        self.key = _untoken(key)
+        self.iv = iv
+
+    def crypt(self, data, crypt_type):
+        iv = _untoken(self.iv)
+        data = _untoken(data)
+        out = []
+        for i in range(0, len(data), 8):
+            blk = data[i:i + 8]
+            if crypt_type == ModelDes.ENCRYPT:
+                x = xor(blk, iv)
+                y = des_e(self.key, x)
+                if not is_concrete_mode():
+                    assume(_fn("DESD", 16, 8)(cat(self.key + y)) == cat(x))
+                iv = y
+            else:
+                x = des_d(self.key, blk)
+                if not is_concrete_mode():
+                    assume(_fn("DESE", 16, 8)(cat(self.key + x)) == cat(blk))
+                y = xor(x, iv)
+                iv = blk
+            out.append(_token(y))
+        return b"".join(out)
+
+
+def _tdes_patches(shape):
+    return ([(tdes_mod, "bytearray", _tdes_bytearray)],
+            [(tdes_mod, "Des", ModelDes)])
+
+
+def _shapes_c09_5(tier):
+    out = []
+    for klen in (16, 24):
+        for n in ((8, 24) if tier == "quick" else (0, 8, 16, 24, 40)):
+            out.append(dict(klen=klen, n=n))
+    return out
+
+
+@obligation("C09.5", _shapes_c09_5,
+            functions=["tlslite.utils.python_tripledes:Python_TripleDES.__init__",
+                       "tlslite.utils.python_tripledes:Python_TripleDES.encrypt",
+                       "tlslite.utils.python_tripledes:Python_TripleDES.decrypt",
+                       "tlslite.utils.python_tripledes:new"],
+            assumes=["single DES (class Des) = CBC wrapper around an "
+                     "uninterpreted bijection keyed by its 8 key bytes "
+                     "(ModelDes mirrors Des.crypt's contract); the DES "
+                     "rounds themselves are outside the claim",
+                     "reference: ANSI X9.52 TCBC, keying options 1 (24-byte "
+                     "key) and 2 (16-byte key: K3 = K1), IV chained across "
+                     "two calls",
+                     "symbolic 8-byte blocks cross bytes.join as unique "
+                     "concrete tokens"],
+            patches=_tdes_patches)
+def c09_5(I, shape):
+    """3DES-EDE-CBC: c_i = E_k3(D_k2(E_k1(p_i xor c_{i-1}))), state carried"""
+    _TOKENS.clear()
+    klen, n = shape["klen"], shape["n"]
+    key = I.bytes(klen, "key")
+    iv = I.bytes(8, "iv")
+    p1 = I.bytes(n, "p1")
+    p2 = I.bytes(8, "p2")
+    k1, k2 = list(key)[:8], list(key)[8:16]
+    k3 = k1 if klen == 16 else list(key)[16:24]
+    c = tdes_mod.new(newbuf(list(key)), newbuf(list(iv)))
+    c1 = c.encrypt(newbuf(list(p1)))
+    c2 = c.encrypt(newbuf(list(p2)))
+    want = []
+    chain = list(iv)
+    for blk in [list(p1)[i:i + 8] for i in range(0, n, 8)] + [list(p2)]:
+        chain = des_e(k3, des_d(k2, des_e(k1, xor(blk, chain))))
+        want += chain
+    got = _untoken(c1) + _untoken(c2)
+    I.check(AND(len(got) == n + 8, seq_eq(got, want) if len(got) == n + 8
+                else False), "tdes-ede-cbc-encrypt")
+    d = tdes_mod.new(newbuf(list(key)), newbuf(list(iv)))
+    d1 = d.decrypt(newbuf(_untoken(c1)))
+    d2 = d.decrypt(newbuf(_untoken(c2)))
+    back = _untoken(d1) + _untoken(d2)
+    I.check(AND(len(back) == n + 8,
+                seq_eq(back, list(p1) + list(p2)) if len(back) == n + 8
+                else False), "tdes-ede-cbc-decrypt-inverts")
